@@ -60,14 +60,17 @@ Section Mono.
   Qed.
 
   Lemma read_sequence_mono g : forall g' acc st r, (g <= g')%nat ->
-    read_sequence nx g acc st = Ret r -> read_sequence nx' g' acc st = Ret r.
+    read_sequence g acc st = Ret r -> read_sequence g' acc st = Ret r.
   Proof.
     induction g as [|g IH]; intros g' acc st r Hg H; [discriminate|].
     destruct g' as [|g']; [lia|]. cbn [read_sequence] in *.
-    apply bind_ret in H as ([o st1] & H1 & H2). rewrite (Hle _ _ H1). cbn [bind].
-    destruct o as [t|]; [|exact H2].
-    destruct (is_elem t); [exact H2|]. destruct (text1 t) as [c|]; [|exact H2].
-    destruct ((48 <=? c) && (c <=? 57)); [apply IH; [lia|exact H2]|exact H2].
+    destruct (input st) as [|t0 r0]; [exact H|]. destruct (is_elem t0); [exact H|].
+    destruct (macro_name t0) as [nm|].
+    - destruct (lookup st nm) as [[a b|n o b|p|k]|]; try exact H.
+      + destruct (definition_invoke a b r0); [apply IH; [lia|exact H]|exact H].
+      + destruct (newcommand_invoke n o b r0); [apply IH; [lia|exact H]|exact H].
+    - destruct (text1 t0) as [c|]; [|exact H].
+      destruct ((48 <=? c) && (c <=? 57)); [apply IH; [lia|exact H]|exact H].
   Qed.
 
   Lemma read_integer_mono g g' st r : (g <= g')%nat ->
@@ -85,7 +88,16 @@ Section Mono.
   Lemma invoke_mono g g' nm m st r : (g <= g')%nat ->
     invoke nx g nm m st = Ret r -> invoke nx' g' nm m st = Ret r.
   Proof.
-    intros Hg H. destruct m as [a b|p|]; try exact H. destruct p; try exact H.
+    intros Hg H. destruct m as [a b|na o b|p|k]; try exact H. destruct p; try exact H.
+    3: { cbn [invoke] in *. unfold newcommand_def in *.
+         destruct (input (ros st)) as [|t0 r0]; [exact H|]. destruct (is_elem t0); [exact H|].
+         match goal with |- context [read_token ?x] => destruct (read_token x) as [[ntoks|] r2] end; [|exact H].
+         destruct (existsb is_elem ntoks); [exact H|].
+         destruct (filter (fun t => tcat t =? CC_ESCAPE) ntoks) as [|nt ?]; [exact H|].
+         destruct (read_optional r2) as [[ds|] r3]; [|exact H].
+         destruct (forallb plainchar ds); [|exact H].
+         apply bind_ret in H as ([z r4] & H1 & H2). apply bind_ret in H1 as ([z' stz] & H3 & H4).
+         rewrite (read_integer_mono _ _ _ _ Hg H3). cbn [bind] in *. inversion H4; subst. exact H2. }
     2: { cbn [invoke] in *. apply bind_ret in H as ([z st1] & H1 & H2). rewrite (read_integer_mono _ _ _ _ Hg H1). exact H2. }
     cbn [invoke] in *.
     apply bind_ret in H as ([a st1] & H1 & H2). rewrite (read_integer_mono _ _ _ _ Hg H1). cbn [bind].
@@ -507,9 +519,13 @@ Proof.
   change (bind (iter_step (next_exp g) g ?s) ?f) with (next_exp (S g) s). now apply nx_elem.
 Qed.
 
-(* what can end a digit run *)
-Definition stopper (u : tok) : Prop :=
-  is_elem u = true \/ (is_elem u = false /\ exists c, text1 u = Some c /\ isdig c = false /\ is_space u = false).
+(* what ends a digit run and stays in the stream: a character token that is neither a digit nor a blank, or a control
+   sequence / brace whose meaning is not a user macro (a primitive, unrecognized, undefined) *)
+Definition stopper (U : list Engine.frame) (B : Engine.frame) (u : tok) : Prop :=
+  is_elem u = false /\
+  ((macro_name u = None /\ exists c, text1 u = Some c /\ isdig c = false /\ is_space u = false) \/
+   (exists nm, macro_name u = Some nm /\
+               match chain_get U B nm with Some (MDef _ _) | Some (MNew _ _ _) => False | _ => True end)).
 
 Section Numbers.
   Context (g0 : nat).
@@ -518,26 +534,26 @@ Section Numbers.
   Lemma nx_other c r U B : nx (St (other c :: r) U B) = Ret (Some (other c), St r U B).
   Proof. apply nx_plain; reflexivity. Qed.
 
-  Lemma read_seq_digits u u' tl U B : nx (St (u :: tl) U B) = Ret (Some u', St tl U B) -> stopper u' ->
+  Lemma read_seq_digits u tl U B : stopper U B u ->
     forall ds acc g, Forall (fun c => isdig c = true) ds -> (length ds < g)%nat ->
-    read_sequence nx g acc (St (map other ds ++ u :: tl) U B) = Ret (rev acc ++ ds, St (u' :: tl) U B).
+    read_sequence g acc (St (map other ds ++ u :: tl) U B) = Ret (rev acc ++ ds, St (u :: tl) U B).
   Proof.
-    intros Hu Hs ds. induction ds as [|c ds IH]; intros acc g Hd Hg; (destruct g as [|g]; [cbn in Hg; lia|]).
-    - cbn [map app read_sequence]. rewrite Hu. cbn [bind]. rewrite app_nil_r.
-      destruct Hs as [He|(He & c & Ht & Hc & Hsp)]; rewrite He; [reflexivity|].
-      rewrite Ht. unfold isdig in Hc. rewrite Hc, Hsp. reflexivity.
-    - cbn [map app read_sequence]. rewrite nx_other. cbn [bind].
-      change (is_elem (other c)) with false. change (text1 (other c)) with (Some c). cbn iota.
-      inversion Hd as [|c' ds' Hc Hd']; subst. unfold isdig in Hc. rewrite Hc.
+    intros Hs ds. induction ds as [|c ds IH]; intros acc g Hd Hg; (destruct g as [|g]; [cbn in Hg; lia|]).
+    - cbn [map app read_sequence input]. rewrite app_nil_r. destruct Hs as (He & [(Hm & c & Ht & Hc & Hsp)|(nm & Hm & Hl)]).
+      + rewrite He, Hm, Ht. unfold isdig in Hc. rewrite Hc, Hsp. reflexivity.
+      + unfold lookup. cbn [ups bottom]. rewrite He, Hm.
+        destruct (chain_get U B nm) as [[a b|n o b|p|k]|]; try contradiction; reflexivity.
+    - cbn [map app read_sequence input]. change (is_elem (other c)) with false.
+      change (macro_name (other c)) with (@None (list N)). change (text1 (other c)) with (Some c). cbn iota.
+      inversion Hd as [|c' ds' Hc Hd']; subst. unfold isdig in Hc. rewrite Hc. unfold set_input. cbn [input ups bottom].
       rewrite IH; [|exact Hd'|cbn in Hg; lia]. cbn [rev]. now rewrite <- app_assoc.
   Qed.
 
-  Lemma read_integer_digits n u u' tl U B g :
-    nx (St (u :: tl) U B) = Ret (Some u', St tl U B) ->
-    stopper u' -> (length (digits n) < g)%nat ->
-    read_integer nx g (St (map other (digits n) ++ u :: tl) U B) = Ret (Z.of_N n, St (u' :: tl) U B).
+  Lemma read_integer_digits n u tl U B g :
+    stopper U B u -> (length (digits n) < g)%nat ->
+    read_integer nx g (St (map other (digits n) ++ u :: tl) U B) = Ret (Z.of_N n, St (u :: tl) U B).
   Proof.
-    intros Hu Hs Hg. pose proof (digits_value_digits n) as Hv. pose proof (digits_isdig n) as Hd.
+    intros Hs Hg. pose proof (digits_value_digits n) as Hv. pose proof (digits_isdig n) as Hd.
     destruct (digits_cons n) as (c & cs & E). rewrite E in *. clear E.
     inversion Hd as [|c' ds' Hc Hd']; subst. cbn [length] in Hg. destruct g as [|g]; [lia|].
     assert (Hc' := Hc). unfold isdig in Hc'.
@@ -549,7 +565,7 @@ Section Numbers.
     unfold push_tok, set_input. cbn [input ups bottom bind].
     rewrite nx_other. cbn [bind]. change (is_elem (other c)) with false. change (text1 (other c)) with (Some c). cbn iota.
     rewrite Hc'.
-    rewrite (read_seq_digits u u' tl U B Hu Hs cs [] (S g) Hd' ltac:(lia)). cbn [bind rev app]. now rewrite Hv.
+    rewrite (read_seq_digits u tl U B Hs cs [] (S g) Hd' ltac:(lia)). cbn [bind rev app]. now rewrite Hv.
   Qed.
 End Numbers.
 
@@ -589,16 +605,18 @@ Lemma if_invoke_cond X th el tl w U B :
   = Ret (St ((if w then X ++ print th else print (else_nodes el)) ++ tl) U B).
 Proof. intros HX Hth Hel. unfold if_invoke. cbn [input]. now rewrite tprocess_cond. Qed.
 
-Lemma stopper_rel r : stopper (rel_tok r).
-Proof. right. split; [reflexivity|]. destruct r; cbn; eauto. Qed.
+Lemma stopper_rel U B r : stopper U B (rel_tok r).
+Proof. split; [destruct r; reflexivity|]. left. split; [destruct r; reflexivity|]. destruct r; cbn; eauto. Qed.
+Lemma stopper_relax U B : chain_get U B s_relax = Some (MPrim PRelax) -> stopper U B (esc s_relax).
+Proof. intros H. split; [reflexivity|]. right. exists s_relax. split; [reflexivity|]. now rewrite H. Qed.
 
-(* \ifnum a rel b \relax ...: both numbers are read, the \relax is executed by the look-ahead and its instance stays *)
+(* \ifnum a rel b \relax ...: both numbers are read; the \relax ends the second one and stays (unexpanded) in the stream *)
 Lemma invoke_ifnum g0 g a r b tl U B :
   (0 <= a)%Z -> (0 <= b)%Z -> chain_get U B s_relax = Some (MPrim PRelax) ->
   (length (digits (Z.to_N a)) < g)%nat -> (length (digits (Z.to_N b)) < g)%nat ->
   invoke (next_exp (S (S g0))) g s_ifnum (MPrim PIfnum)
     (St (map other (digits (Z.to_N a)) ++ rel_tok r :: map other (digits (Z.to_N b)) ++ esc s_relax :: tl) U B)
-  = if_invoke (relz r a b) (St (prim_elem PRelax :: tl) U B).
+  = if_invoke (relz r a b) (St (esc s_relax :: tl) U B).
 Proof.
   intros Ha Hb Hrelax Hga Hgb. cbn [invoke].
   destruct (digits_cons (Z.to_N a)) as (ca & csa & Ea).
@@ -606,14 +624,12 @@ Proof.
                  = St (map other (digits (Z.to_N a)) ++ rel_tok r :: map other (digits (Z.to_N b)) ++ esc s_relax :: tl) U B).
   { rewrite Ea. reflexivity. }
   rewrite Hros.
-  rewrite (read_integer_digits g0 (Z.to_N a) (rel_tok r) (rel_tok r)); [| |apply stopper_rel|exact Hga].
-  2: destruct r; apply nx_plain; reflexivity.
+  rewrite (read_integer_digits g0 (Z.to_N a) (rel_tok r)); [|apply stopper_rel|exact Hga].
   cbn [bind]. replace (ros (St (rel_tok r :: map other (digits (Z.to_N b)) ++ esc s_relax :: tl) U B))
     with (St (rel_tok r :: map other (digits (Z.to_N b)) ++ esc s_relax :: tl) U B) by (destruct r; reflexivity).
   cbn [input]. replace (is_elem (rel_tok r)) with false by (destruct r; reflexivity).
   unfold set_input. cbn [input ups bottom].
-  rewrite (read_integer_digits g0 (Z.to_N b) (esc s_relax) (prim_elem PRelax)); [| |left; reflexivity|exact Hgb].
-  2: now apply nx_relax.
+  rewrite (read_integer_digits g0 (Z.to_N b) (esc s_relax)); [|now apply stopper_relax|exact Hgb].
   cbn [bind]. rewrite !Z2N.id by assumption.
   destruct r; cbn [rel_tok ttext other seqb N.eqb Pos.eqb andb relz]; try reflexivity.
   now rewrite Z.gtb_ltb.
@@ -814,7 +830,7 @@ Lemma good_new b : F1l b -> good {| m_n := O; m_default := None; m_body := b |}.
 Proof. intros H. repeat split. exact H. Qed.
 
 Lemma mean_of_good m : good m -> mean_of m = MDef [] (print (m_body m)).
-Proof. intros (H & _ & _). unfold mean_of. now rewrite H. Qed.
+Proof. intros (H & Hd & _). unfold mean_of. now rewrite H, Hd. Qed.
 
 Lemma Rf_def_local fs U B nm b : F1l b -> Rf fs U B ->
   let m := {| m_n := O; m_default := None; m_body := b |} in
@@ -968,38 +984,47 @@ Proof.
   rewrite (step_macro _ _ _ (mname nm) (MDef [] body)); [reflexivity|reflexivity|reflexivity|exact H].
 Qed.
 
+Lemma exec_relax fs U B r : Rfg G fs U B -> exec (St (esc s_relax :: r) U B) [prim_elem PRelax] (St r U B).
+Proof.
+  intros HR. eapply (ex_cont O).
+  - rewrite (step_macro _ _ (esc s_relax) s_relax (MPrim PRelax)); [reflexivity|reflexivity|reflexivity|].
+    apply (prim_lookupg G fs); [exact HR|not_mname|reflexivity].
+  - eapply (ex_yield O); [apply step_elem; reflexivity|apply ex_refl].
+Qed.
+
+(* [Xt]: tokens left in front of the selected branch (the \relax that ended the number), [Xe]: what they yield *)
 Lemma exec_cond fs U B t th el r : Rfg G fs U B -> f1_test t = true -> (forall k, walks (print th) k k) ->
   (forall e, el = Some e -> forall k, walks (print e) k k) ->
   forall e0, frames e0 = fs ->
-  exists X, Forall (fun x => is_elem x = true) X /\
+  exists Xt Xe, Forall (fun x => is_elem x = true) Xe /\ (forall r', exec (St (Xt ++ r') U B) Xe (St r' U B)) /\
   exec (St (print_test t ++ print th ++ else_part el ++ esc s_fi :: r) U B) []
-       (St ((if eval_test e0 t then X ++ print th else print (else_nodes el)) ++ r) U B).
+       (St ((if eval_test e0 t then Xt ++ print th else print (else_nodes el)) ++ r) U B).
 Proof.
   intros HR Ht Hth Hel e0 He0. destruct t as [| |a rl b| | | | | |]; try discriminate Ht.
-  - exists []. split; [constructor|]. eapply (ex_cont O); [|apply ex_refl].
+  - exists [], []. split; [constructor|]. split; [intros r'; apply ex_refl|]. eapply (ex_cont O); [|apply ex_refl].
     cbn [print_test app]. rewrite (step_macro _ _ _ s_iftrue (MPrim PIftrue)); [|reflexivity|reflexivity|].
     + cbn [invoke]. pose proof (if_invoke_cond [] th el r true U B (Forall_nil _) Hth Hel) as Hi. cbn [app] in Hi. rewrite Hi. reflexivity.
     + apply (prim_lookupg G fs); [exact HR|not_mname|reflexivity].
-  - exists []. split; [constructor|]. eapply (ex_cont O); [|apply ex_refl].
+  - exists [], []. split; [constructor|]. split; [intros r'; apply ex_refl|]. eapply (ex_cont O); [|apply ex_refl].
     cbn [print_test app]. rewrite (step_macro _ _ _ s_iffalse (MPrim PIffalse)); [|reflexivity|reflexivity|].
     + cbn [invoke]. pose proof (if_invoke_cond [] th el r false U B (Forall_nil _) Hth Hel) as Hi. cbn [app] in Hi. rewrite Hi. reflexivity.
     + apply (prim_lookupg G fs); [exact HR|not_mname|reflexivity].
   - destruct a as [a|]; [|discriminate Ht]. destruct b as [b|]; [|discriminate Ht].
     cbn [f1_test] in Ht. apply andb_true_iff in Ht as [Ha Hb]. apply Z.leb_le in Ha, Hb.
-    exists [prim_elem PRelax]. split; [constructor; [reflexivity|constructor]|].
+    exists [esc s_relax], [prim_elem PRelax]. split; [constructor; [reflexivity|constructor]|].
+    split; [intros r'; apply (exec_relax fs), HR|].
     set (la := length (digits (Z.to_N a))). set (lb := length (digits (Z.to_N b))).
     eapply (ex_cont (S (S (la + lb)))); [|apply ex_refl].
     cbn [print_test]. cbn [app]. rewrite <- app_assoc. cbn [app]. rewrite <- app_assoc. cbn [app].
     rewrite (step_macro _ _ _ s_ifnum (MPrim PIfnum)); [|reflexivity|reflexivity|].
     + rewrite (invoke_ifnum (la + lb) (S (S (la + lb))) a rl b); [|exact Ha|exact Hb| |subst la lb; lia|subst la lb; lia].
-      * change (prim_elem PRelax :: print th ++ else_part el ++ esc s_fi :: r)
-          with ([prim_elem PRelax] ++ print th ++ else_part el ++ esc s_fi :: r).
-        rewrite (if_invoke_cond [prim_elem PRelax] th el r (relz rl a b) U B); [|constructor; [reflexivity|constructor]|exact Hth|exact Hel].
+      * change (esc s_relax :: print th ++ else_part el ++ esc s_fi :: r)
+          with ([esc s_relax] ++ print th ++ else_part el ++ esc s_fi :: r).
+        rewrite (if_invoke_cond [esc s_relax] th el r (relz rl a b) U B); [|constructor; [reflexivity|constructor]|exact Hth|exact Hel].
         reflexivity.
       * apply (prim_lookupg G fs); [exact HR|not_mname|reflexivity].
     + apply (prim_lookupg G fs); [exact HR|not_mname|reflexivity].
 Qed.
-
 End ExecG.
 
 (* ---------------------------------------------------------------------------------------------- *)
@@ -1089,15 +1114,13 @@ Proof.
     destruct (eval f (tick e budget) out br) as [e2 out2| |] eqn:Eb; try discriminate Hev.
     rewrite print_cond. rewrite <- !app_assoc. cbn [app].
     destruct (exec_cond good _ U B t th el (print ns ++ rest) HR1 Ht (proj2 walks_print th Hth)
-               (fun e0 He0 => proj2 walks_print e0 (Hel e0 He0)) (tick e budget) eq_refl) as (X & HX & Hex0).
+               (fun e0 He0 => proj2 walks_print e0 (Hel e0 He0)) (tick e budget) eq_refl) as (Xt & X & HX & HXe & Hex0).
     assert (Hbr : F1l br) by (subst br; destruct (eval_test (tick e budget) t); [exact Hth|destruct el as [x|]; [now apply Hel|constructor]]).
     destruct (IH _ _ _ _ _ Hbr Eb Hg1 U B (print ns ++ rest) HR1) as (T1 & U1 & B1 & Hex1 & HR1' & Hlen1 & Htxt1).
     destruct (IH _ _ _ _ _ Hns Hev Hg2 U1 B1 rest HR1') as (T2 & U2 & B2 & Hex2 & HR2' & Hlen2 & Htxt2).
     exists ((if eval_test (tick e budget) t then X else []) ++ T1 ++ T2), U2, B2. repeat split; [|exact HR2'|lia|].
     + eapply (exec_trans _ []); [exact Hex0|]. subst br. destruct (eval_test (tick e budget) t).
-      * rewrite <- app_assoc. eapply exec_trans; [|eapply exec_trans; [exact Hex1|exact Hex2]].
-        clear -HX. induction HX as [|x X Hx _ IHX]; [apply ex_refl|]. cbn [app].
-        eapply (ex_yield O); [now apply step_elem|exact IHX].
+      * rewrite <- app_assoc. eapply exec_trans; [apply HXe|eapply exec_trans; [exact Hex1|exact Hex2]].
       * cbn [app]. replace (print (else_nodes el)) with (print match el with Some x => x | None => [] end) by (destruct el; reflexivity).
         eapply exec_trans; [exact Hex1|exact Hex2].
     + rewrite Htxt2, Htxt1, !text_of_app.
@@ -1177,10 +1200,10 @@ Qed.
 (* the token shape shared by all fragments: what the scanners need *)
 Fixpoint w_node (x : node) : bool :=
   match x with
-  | NWord _ | NParam _ => true
+  | NWord _ | NParam _ | NLet _ _ => true
   | NGroup b => forallb w_node b
-  | NDef _ _ _ d b => is_none d && forallb w_node b
-  | NCall _ o a => is_none o && forallb (forallb w_node) a
+  | NDef _ _ _ d b => opt_ok d && forallb w_node b
+  | NCall _ o a => opt_ok o && forallb (forallb w_node) a
   | NCond t th el => f1_test t && forallb w_node th && match el with Some e => forallb w_node e | None => true end
   | NCase a bs el => case_head a bs && forallb (forallb w_node) bs && match el with Some e => forallb w_node e | None => true end
   | _ => false
@@ -1197,12 +1220,31 @@ Proof. destruct a as [z|]; [|discriminate]. destruct bs as [|b0 r]; [discriminat
 
 Fixpoint print_args (l : list (list node)) : list tok :=
   match l with [] => [] | a :: r => bg :: print a ++ eg :: print_args r end.
-Lemma print_def g nm np d b :
-  print_node (NDef g nm np d b) = esc (if g then s_gdef else s_def) :: esc (mname nm) :: param_text np ++ bg :: print b ++ [eg].
+Lemma print_def g nm np b :
+  print_node (NDef g nm np None b) = esc (if g then s_gdef else s_def) :: esc (mname nm) :: param_text np ++ bg :: print b ++ [eg].
 Proof. reflexivity. Qed.
-Lemma print_call nm o a : print_node (NCall nm o a) = esc (mname nm) :: print_args a.
+Lemma print_newcommand g nm np d b :
+  print_node (NDef g nm np (Some d) b) =
+  esc s_newcommand :: bg :: esc (mname nm) :: eg :: lbr :: map other (digits (N.of_nat (S np))) ++ rbr :: lbr :: print d ++ rbr ::
+  bg :: print b ++ [eg].
 Proof. reflexivity. Qed.
+Definition opt_toks (o : option (list node)) : list tok := match o with Some x => lbr :: print x ++ [rbr] | None => [] end.
+Lemma print_call nm o a : print_node (NCall nm o a) = esc (mname nm) :: opt_toks o ++ print_args a.
+Proof. destruct o; reflexivity. Qed.
+(* words only: optional arguments and defaults *)
+Lemma words_print x : forallb is_word x = true -> exists ws, print x = flat_map wprint ws.
+Proof.
+  induction x as [|n x IH]; intros H; [exists []; reflexivity|]. cbn [forallb] in H. apply andb_true_iff in H as [H1 H2].
+  destruct n; try discriminate H1. destruct (IH H2) as (ws & E). exists (w :: ws). cbn [print flat_map]. now rewrite E.
+Qed.
+Lemma words_fa x : forallb is_word x = true -> forallb fa_node x = true.
+Proof.
+  induction x as [|n x IH]; intros H; [reflexivity|]. cbn [forallb] in *. apply andb_true_iff in H as [H1 H2].
+  rewrite (IH H2). destruct n; try discriminate H1. reflexivity.
+Qed.
 Lemma print_param k : print_node (NParam k) = [hash_tok; other (48 + N.of_nat k)].
+Proof. reflexivity. Qed.
+Lemma print_let nm tg : print_node (NLet nm tg) = [esc s_let; esc (mname nm); other 61; esc (mname tg)].
 Proof. reflexivity. Qed.
 
 Lemma walks_list l : Forall (fun x => forall k, walks (print_node x) k k) l -> forall k, walks (print l) k k.
@@ -1211,6 +1253,29 @@ Lemma walks_param_text i n k : walks (flat_map (fun i => [hash_tok; other (48 + 
 Proof.
   apply walks_toks. revert i. induction n as [|n IH]; intros i; cbn [seq flat_map app]; [constructor|].
   constructor; [reflexivity|]. constructor; [reflexivity|apply IH].
+Qed.
+
+Lemma walks_words x k : forallb is_word x = true -> walks (print x) k k.
+Proof.
+  intros H. destruct (words_print x H) as (ws & ->). clear H. induction ws as [|w ws IH]; [apply walks_nil|].
+  cbn [flat_map]. eapply walks_app; [apply walks_wprint|exact IH].
+Qed.
+Lemma depth_words x d : forallb is_word x = true -> depth_after (print x) d = Some d.
+Proof.
+  intros H. destruct (words_print x H) as (ws & ->). clear H. revert d. induction ws as [|w ws IH]; intros d; [reflexivity|].
+  cbn [flat_map]. now rewrite depth_after_app, (depth_flat _ (flat_wprint w)), IH.
+Qed.
+Lemma walks_opt o k : opt_ok o = true -> walks (opt_toks o) k k.
+Proof.
+  destruct o as [x|]; intros H; [|apply walks_nil]. cbn [opt_toks opt_ok] in *.
+  change (lbr :: ?l) with ([lbr] ++ l). eapply walks_app; [apply walks_tok; reflexivity|].
+  eapply walks_app; [now apply walks_words|apply walks_tok; reflexivity].
+Qed.
+Lemma depth_opt o d : opt_ok o = true -> depth_after (opt_toks o) d = Some d.
+Proof.
+  destruct o as [x|]; intros H; [|reflexivity]. cbn [opt_toks opt_ok depth_after] in *.
+  change (is_bgroup lbr) with false. change (is_egroup lbr) with false. cbn iota.
+  rewrite depth_after_app, (depth_words x d H). reflexivity.
 Qed.
 
 Lemma walks_or k : walks [esc s_or] (S k) (S k).
@@ -1226,18 +1291,30 @@ Proof.
   apply (node_ind2 (fun x => w_node x = true -> forall k, walks (print_node x) k k)).
   - intros n Hs H k. destruct n; try discriminate H; try discriminate Hs.
     + apply walks_wprint.
+    + rewrite print_let. apply walks_toks. repeat (constructor; [reflexivity|]). constructor.
     + rewrite print_param. apply walks_toks. constructor; [reflexivity|]. constructor; [reflexivity|constructor].
   - intros b IH H k. cbn [w_node] in H. rewrite print_group. change (bg :: ?l) with ([bg] ++ l).
     eapply walks_app; [apply walks_tok; reflexivity|]. eapply walks_app; [|apply walks_tok; reflexivity].
     apply walks_list. now apply (Forall_forallb w_node).
-  - intros g nm np d b IH H k. cbn [w_node] in H. apply andb_true_iff in H as [_ H]. rewrite print_def.
+  - intros g nm np d b IH H k. cbn [w_node] in H. apply andb_true_iff in H as [Hd H]. destruct d as [dd|].
+    { rewrite print_newcommand. cbn [opt_ok] in Hd.
+      change (esc s_newcommand :: bg :: esc (mname nm) :: eg :: lbr :: ?l) with ([esc s_newcommand; bg; esc (mname nm); eg; lbr] ++ l).
+      eapply walks_app; [apply walks_toks; repeat (constructor; [reflexivity|]); constructor|].
+      eapply walks_app; [apply walks_toks, Forall_map_tok; intros c; reflexivity|].
+      change (rbr :: lbr :: ?l) with ([rbr; lbr] ++ l). eapply walks_app; [apply walks_toks; repeat (constructor; [reflexivity|]); constructor|].
+      eapply walks_app; [now apply walks_words|].
+      change (rbr :: bg :: ?l) with ([rbr; bg] ++ l). eapply walks_app; [apply walks_toks; repeat (constructor; [reflexivity|]); constructor|].
+      eapply walks_app; [|apply walks_tok; reflexivity].
+      apply walks_list. now apply (Forall_forallb w_node). }
+    rewrite print_def.
     change (?a :: ?b' :: ?l) with ([a; b'] ++ l). eapply walks_app.
     + apply walks_toks. constructor; [destruct g; reflexivity|]. constructor; [reflexivity|constructor].
     + eapply walks_app; [apply walks_param_text|]. change (bg :: ?l) with ([bg] ++ l).
       eapply walks_app; [apply walks_tok; reflexivity|]. eapply walks_app; [|apply walks_tok; reflexivity].
       apply walks_list. now apply (Forall_forallb w_node).
-  - intros nm o a IH H k. cbn [w_node] in H. apply andb_true_iff in H as [_ H]. rewrite print_call.
+  - intros nm o a IH H k. cbn [w_node] in H. apply andb_true_iff in H as [Ho H]. rewrite print_call.
     change (?x :: ?l) with ([x] ++ l). eapply walks_app; [apply walks_tok; reflexivity|].
+    eapply walks_app; [now apply walks_opt|].
     pose proof (Forall2_forallb w_node _ a IH H) as Ha. clear IH H.
     induction Ha as [|arg a Harg _ IHa]; [apply walks_nil|]. cbn [print_args].
     change (bg :: ?l) with ([bg] ++ l). eapply walks_app; [apply walks_tok; reflexivity|].
@@ -1280,17 +1357,30 @@ Proof.
   - intros n Hs H d. destruct n; try discriminate H; try discriminate Hs.
     + apply depth_flat, flat_wprint.
     + reflexivity.
+    + reflexivity.
   - intros b IH H d. cbn [w_node] in H. rewrite print_group. cbn [depth_after]. change (is_bgroup bg) with true. cbn iota.
     rewrite depth_after_app, (depth_list b (Forall_forallb w_node _ b IH H)). reflexivity.
-  - intros g nm np dd b IH H d. cbn [w_node] in H. apply andb_true_iff in H as [_ H]. rewrite print_def.
+  - intros g nm np dd b IH H d. cbn [w_node] in H. apply andb_true_iff in H as [Hd H]. destruct dd as [dd|].
+    { rewrite print_newcommand. cbn [opt_ok] in Hd. cbn [depth_after].
+      change (is_bgroup (esc s_newcommand)) with false. change (is_egroup (esc s_newcommand)) with false.
+      change (is_bgroup bg) with true. change (is_bgroup (esc (mname nm))) with false. change (is_egroup (esc (mname nm))) with false.
+      change (is_bgroup eg) with false. change (is_egroup eg) with true. change (is_bgroup lbr) with false. change (is_egroup lbr) with false. cbn iota.
+      rewrite depth_after_app, (depth_flat (map other _)) by (apply Forall_map_tok; intros c; split; reflexivity).
+      cbn [depth_after]. change (is_bgroup rbr) with false. change (is_egroup rbr) with false.
+      change (is_bgroup lbr) with false. change (is_egroup lbr) with false. cbn iota.
+      rewrite depth_after_app, (depth_words dd d Hd). cbn [depth_after].
+      change (is_bgroup rbr) with false. change (is_egroup rbr) with false. change (is_bgroup bg) with true. cbn iota.
+      rewrite depth_after_app, (depth_list b (Forall_forallb w_node _ b IH H)). reflexivity. }
+    rewrite print_def.
     change (?a :: ?b' :: ?l) with ([a; b'] ++ l). rewrite depth_after_app.
     rewrite (depth_flat [esc (if g then s_gdef else s_def); esc (mname nm)]) by
       (constructor; [destruct g; split; reflexivity|]; constructor; [split; reflexivity|constructor]).
     rewrite depth_after_app. unfold param_text. rewrite (depth_flat _ (flat_param_text 1 np)).
     cbn [depth_after]. change (is_bgroup bg) with true. cbn iota.
     rewrite depth_after_app, (depth_list b (Forall_forallb w_node _ b IH H)). reflexivity.
-  - intros nm o a IH H d. cbn [w_node] in H. apply andb_true_iff in H as [_ H]. rewrite print_call.
+  - intros nm o a IH H d. cbn [w_node] in H. apply andb_true_iff in H as [Ho H]. rewrite print_call.
     cbn [depth_after]. change (is_bgroup (esc (mname nm))) with false. change (is_egroup (esc (mname nm))) with false. cbn iota.
+    rewrite depth_after_app, (depth_opt o d Ho).
     pose proof (Forall2_forallb w_node _ a IH H) as Ha. clear IH H. revert d.
     induction Ha as [|arg a Harg _ IHa]; intros d; [reflexivity|]. cbn [print_args depth_after].
     change (is_bgroup bg) with true. cbn iota. rewrite depth_after_app, (depth_list arg Harg). cbn [depth_after].
@@ -1343,7 +1433,7 @@ Proof.
   - intros n Hs H. destruct n; try discriminate H; try discriminate Hs; reflexivity.
   - intros b IH H. cbn [fa_node w_node] in *. now apply (forallb_imp fa_node).
   - intros g nm np d b IH H. cbn [fa_node w_node] in *. apply andb_true_iff in H as [H Hb]. apply andb_true_iff in H as [_ Hd].
-    rewrite Hd. now apply (forallb_imp fa_node).
+    destruct d; [discriminate Hd|]. cbn [opt_ok andb]. now apply (forallb_imp fa_node).
   - intros nm o a IH H. cbn [fa_node w_node] in *. apply andb_true_iff in H as [Ho Ha]. rewrite Ho. now apply (forallb2_imp fa_node).
   - intros t th el IHth IHel H. cbn [fa_node w_node] in *. apply andb_true_iff in H as [H He]. apply andb_true_iff in H as [Ht Hth].
     rewrite Ht, (forallb_imp fa_node w_node th IHth Hth). destruct el as [e|]; [|reflexivity].
@@ -1359,7 +1449,8 @@ Proof.
   - intros x Hs d H. destruct x; try discriminate H; try discriminate Hs; reflexivity.
   - intros b IH d H. cbn [fb_node w_node] in *. destruct d as [|d]; [discriminate H|].
     apply (forallb_imp (fun y => fb_node n y d)); [|exact H]. eapply Forall_impl; [|exact IH]. intros y Hy. apply Hy.
-  - intros g nm np dd b IH d H. cbn [fb_node w_node] in *. apply andb_true_iff in H as [H0 H]. apply andb_true_iff in H0 as [_ Hd]. rewrite Hd.
+  - intros g nm np dd b IH d H. cbn [fb_node w_node] in *. apply andb_true_iff in H as [H0 H]. apply andb_true_iff in H0 as [_ Hd].
+    destruct dd; [discriminate Hd|]. cbn [opt_ok andb].
     destruct d as [|d]; [discriminate H|].
     apply (forallb_imp (fun y => fb_node n y d)); [|exact H]. eapply Forall_impl; [|exact IH]. intros y Hy. apply Hy.
   - intros nm o a IH d H. cbn [fb_node w_node] in *. apply andb_true_iff in H as [H0 H]. rewrite H0. cbn [andb].
@@ -1388,9 +1479,11 @@ Proof.
   apply (node_ind2 (fun x => f2_node x = true -> w_node x = true)).
   - intros n Hs H. destruct n; try discriminate H; try discriminate Hs; reflexivity.
   - intros b IH H. cbn [f2_node w_node] in *. now apply (forallb_imp f2_node).
-  - intros g nm np d b _ H. cbn [f2_node w_node] in *. apply andb_true_iff in H as [H Hb]. apply andb_true_iff in H as [_ Hd].
-    rewrite Hd. apply orb_true_iff in Hb as [Hb|Hb]; [now apply (fb_Wl np BODY_DEPTH)|].
-    apply andb_true_iff in Hb as [_ Hb]. now apply fa_Wl.
+  - intros g nm np d b _ H. cbn [f2_node w_node] in *. destruct d as [dd|].
+    + apply andb_true_iff in H as [H Hb]. apply andb_true_iff in H as [_ Hd]. cbn [opt_ok]. rewrite Hd. now apply (fb_Wl (S np) BODY_DEPTH).
+    + apply andb_true_iff in H as [_ Hb]. cbn [opt_ok andb].
+      apply orb_true_iff in Hb as [Hb|Hb]; [now apply (fb_Wl np BODY_DEPTH)|].
+      apply andb_true_iff in Hb as [_ Hb]. now apply fa_Wl.
   - intros nm o a _ H. cbn [f2_node w_node] in *. apply andb_true_iff in H as [Ho Ha]. rewrite Ho.
     apply (forallb2_imp fa_node); [|exact Ha]. apply Forall_forall. intros l _. apply Forall_forall. intros x _. apply fa_W.
   - intros t th el IHth IHel H. cbn [f2_node w_node] in *. apply andb_true_iff in H as [H He]. apply andb_true_iff in H as [Ht Hth].
@@ -1409,7 +1502,7 @@ Proof.
   - intros n Hs H. destruct n; try discriminate H; try discriminate Hs; reflexivity.
   - intros b IH H. cbn [fa_node f2_node] in *. now apply (forallb_imp fa_node).
   - intros g nm np d b _ H. cbn [fa_node f2_node] in *. apply andb_true_iff in H as [H Hb]. apply andb_true_iff in H as [Hn Hd].
-    rewrite Hd, Hn, Hb. apply Nat.eqb_eq in Hn. subst np. cbn. now rewrite orb_true_r.
+    destruct d; [discriminate Hd|]. rewrite Hn, Hb. apply Nat.eqb_eq in Hn. subst np. cbn. now rewrite orb_true_r.
   - intros nm o a _ H. exact H.
   - intros t th el IHth IHel H. cbn [fa_node f2_node] in *. apply andb_true_iff in H as [H He]. apply andb_true_iff in H as [Ht Hth].
     rewrite Ht, (forallb_imp fa_node f2_node th IHth Hth). destruct el as [e|]; [|reflexivity].
@@ -1437,8 +1530,8 @@ Proof.
   - now rewrite (IH body Hx).
   - apply andb_true_iff in Hx as [Hx Hb]. apply andb_true_iff in Hx as [_ Hd]. destruct default; [discriminate Hd|].
     cbn [option_map]. now rewrite (IH body Hb).
-  - apply andb_true_iff in Hx as [Ho Ha]. destruct opt; [discriminate Ho|]. cbn [option_map].
-    now rewrite (map_id_forallb (lower k) (forallb fa_node) args IH Ha).
+  - apply andb_true_iff in Hx as [Ho Ha]. rewrite (map_id_forallb (lower k) (forallb fa_node) args IH Ha).
+    destruct opt as [o|]; [|reflexivity]. cbn [option_map opt_ok] in *. now rewrite (IH o (words_fa o Ho)).
   - apply andb_true_iff in Hx as [Hx He]. apply andb_true_iff in Hx as [_ Hth]. rewrite (IH thn Hth).
     destruct els as [e|]; [|reflexivity]. cbn [option_map]. now rewrite (IH e He).
   - apply andb_true_iff in Hx as [Hx He]. apply andb_true_iff in Hx as [_ Hbs].
@@ -1455,8 +1548,8 @@ Proof.
   - now rewrite (IH body Hx).
   - apply andb_true_iff in Hx as [Hx Hb]. apply andb_true_iff in Hx as [_ Hd]. destruct default; [discriminate Hd|].
     cbn [option_map]. now rewrite (IH body Hb), (lower_A 50 body Hb).
-  - apply andb_true_iff in Hx as [Ho Ha]. destruct opt; [discriminate Ho|]. cbn [option_map].
-    now rewrite (map_id_forallb (subst k args) (forallb fa_node) args0 IH Ha).
+  - apply andb_true_iff in Hx as [Ho Ha]. rewrite (map_id_forallb (subst k args) (forallb fa_node) args0 IH Ha).
+    destruct opt as [o|]; [|reflexivity]. cbn [option_map opt_ok] in *. now rewrite (IH o (words_fa o Ho)).
   - apply andb_true_iff in Hx as [Hx He]. apply andb_true_iff in Hx as [_ Hth]. rewrite (IH thn Hth).
     destruct els as [e|]; [|reflexivity]. cbn [option_map]. now rewrite (IH e He).
   - apply andb_true_iff in Hx as [Hx He]. apply andb_true_iff in Hx as [_ Hbs].
@@ -1567,6 +1660,9 @@ Section Subst.
     apply (node_ind2 (fun x => forall d, fb_node n x d = true -> Q d x)).
     - intros x Hs d H. destruct x; try discriminate H; try discriminate Hs.
       + split; [cbn [sbn print]; rewrite app_nil_r; apply xp_toks, inert_wprint|reflexivity].
+      + split; [|reflexivity]. cbn [sbn print]. rewrite app_nil_r, print_let. apply xp_toks.
+        constructor; [apply inert_esc; cbv; congruence|]. constructor; [apply inert_mname|]. constructor; [apply inert_other|].
+        constructor; [apply inert_mname|constructor].
       + cbn [fb_node] in H. apply andb_true_iff in H as [H1 H2]. apply Nat.leb_le in H1, H2. split.
         * rewrite print_param. apply xp_param. lia.
         * apply nth_args_A.
@@ -1585,19 +1681,25 @@ Section Subst.
           constructor; [apply inert_bg|constructor].
         * apply xp_app; [exact H1|apply xp_tok, inert_eg].
       + cbn [forallb fa_node Nat.eqb is_none andb]. now rewrite H2.
-    - intros nm o a IH d H. cbn [fb_node] in H. apply andb_true_iff in H as [Ho H]. destruct o; [discriminate Ho|].
-      cbn [sbn option_map].
+    - intros nm o a IH d H. cbn [fb_node] in H. apply andb_true_iff in H as [Ho H].
+      assert (Hopt : option_map (subst d args) o = o).
+      { destruct o as [ws|]; [|reflexivity]. cbn [option_map opt_ok] in *. f_equal. apply subst_A. now apply words_fa. }
+      assert (Hoi : Forall inert (opt_toks o)).
+      { destruct o as [ws|]; [|constructor]. cbn [opt_toks opt_ok] in *. constructor; [apply inert_other|].
+        apply Forall_app. split; [|constructor; [apply inert_other|constructor]].
+        destruct (words_print ws Ho) as (l & ->). clear. induction l as [|w l IHl]; [constructor|].
+        cbn [flat_map]. apply Forall_app. split; [apply inert_wprint|exact IHl]. }
       assert (Ha : xp ps (print_args a) (print_args (map (subst d args) a)) /\ forallb (forallb fa_node) (map (subst d args) a) = true).
-      { clear Ho. induction IH as [|arg a Harg _ IHa]; [split; [apply xp_nil|reflexivity]|].
+      { clear Ho Hopt Hoi. induction IH as [|arg a Harg _ IHa]; [split; [apply xp_nil|reflexivity]|].
         cbn [forallb] in H. apply andb_true_iff in H as [H1 H2]. destruct d as [|d]; [discriminate H1|].
         destruct (Q_list arg d Harg H1) as [Q1 Q2]. destruct (IHa H2) as [I1 I2].
         cbn [map print_args forallb]. rewrite Q2, I2. split; [|reflexivity].
         change (bg :: ?l) with ([bg] ++ l). apply xp_app; [apply xp_tok, inert_bg|].
         apply xp_app; [exact Q1|]. change (eg :: ?l) with ([eg] ++ l). apply xp_app; [apply xp_tok, inert_eg|exact I1]. }
       destruct Ha as [A1 A2]. split.
-      + unfold sbn. cbn [option_map print]. rewrite !print_call, app_nil_r. change (?x :: ?l) with ([x] ++ l).
-        apply xp_app; [apply xp_tok, inert_mname|exact A1].
-      + unfold sbn. cbn [option_map forallb fa_node is_none andb]. now rewrite A2.
+      + unfold sbn. rewrite Hopt. cbn [print]. rewrite !print_call, app_nil_r. change (?x :: ?l) with ([x] ++ l).
+        apply xp_app; [apply xp_tok, inert_mname|]. apply xp_app; [now apply xp_toks|exact A1].
+      + unfold sbn. rewrite Hopt. cbn [forallb fa_node andb]. now rewrite Ho, A2.
     - intros t th el IHth IHel d H. cbn [fb_node] in H. apply andb_true_iff in H as [Ht H]. destruct d as [|d]; [discriminate H|].
       apply andb_true_iff in H as [Hth He]. destruct (Q_list th d IHth Hth) as [T1 T2].
       assert (E : xp ps (else_part el) (else_part (option_map (subst (S d) args) el)) /\
@@ -1691,8 +1793,11 @@ Qed.
 
 (* ---- stored meanings of F2 ---- *)
 Definition good2 (m : MacroLang.meaning) : Prop :=
-  m_default m = None /\ (m_n m <= 9)%nat /\
-  (forallb (fun y => fb_node (m_n m) y BODY_DEPTH) (m_body m) = true \/ (m_n m = O /\ forallb fa_node (m_body m) = true)).
+  match m_default m with
+  | None => (m_n m <= 9)%nat /\
+      (forallb (fun y => fb_node (m_n m) y BODY_DEPTH) (m_body m) = true \/ (m_n m = O /\ forallb fa_node (m_body m) = true))
+  | Some d => (S (m_n m) <= 9)%nat /\ forallb is_word d = true /\ forallb (fun y => fb_node (S (m_n m)) y BODY_DEPTH) (m_body m) = true
+  end.
 
 Lemma fb0_fa : forall x d, fb_node O x d = true -> fa_node x = true.
 Proof.
@@ -1723,77 +1828,209 @@ Lemma fb0_fal d l : forallb (fun y => fb_node O y d) l = true -> forallb fa_node
 Proof. apply forallb_imp. apply Forall_forall. intros x _. apply fb0_fa. Qed.
 
 Lemma good2_body_W m : good2 m -> forallb w_node (m_body m) = true.
-Proof. intros (_ & _ & [H|[_ H]]); [now apply (fb_Wl (m_n m) BODY_DEPTH)|now apply fa_Wl]. Qed.
+Proof.
+  unfold good2. destruct (m_default m).
+  - intros (_ & _ & H). now apply (fb_Wl (S (m_n m)) BODY_DEPTH).
+  - intros (_ & [H|[_ H]]); [now apply (fb_Wl (m_n m) BODY_DEPTH)|now apply fa_Wl].
+Qed.
 
 Section Unfold2.
   Context (f : nat) (e : env) (out : list Z) (rest : list node) (budget : nat) (Hs : steps e = S budget).
   Let e1 := tick e budget.
 
-  Lemma eval_call nm a : eval (S f) e out (NCall nm None a :: rest) =
+  Definition call_args (m : MacroLang.meaning) (o : option (list node)) (a : list (list node)) : list (list node) :=
+    match m_default m with Some d => (match o with Some x => x | None => d end) :: a | None => a end.
+  Lemma eval_call nm o a : eval (S f) e out (NCall nm o a :: rest) =
     match lookup_frames nm (frames e1) with
     | None => Stuck 1
     | Some m =>
         if Nat.eqb (length a) (m_n m) then
-          let args := match m_default m with Some d => d :: a | None => a end in
-          let body := subst 50 args (m_body m) in
+          let body := subst 50 (call_args m o a) (m_body m) in
           if Nat.ltb 4000 (length body) then MacroLang.OutOfFuel else
           match eval f e1 out body with Ok e' out' => eval f e' out' rest | other => other end
         else Stuck 2
     end.
   Proof. cbn [eval]. rewrite Hs. reflexivity. Qed.
-  Lemma gsafe_call nm a : gsafe (S f) e out (NCall nm None a :: rest) =
+  Lemma gsafe_call nm o a : gsafe (S f) e out (NCall nm o a :: rest) =
     match lookup_frames nm (frames e1) with
     | None => true
     | Some m =>
-        let args := match m_default m with Some d => d :: a | None => a end in
-        let body := subst 50 args (m_body m) in
+        let body := subst 50 (call_args m o a) (m_body m) in
+        (match o, m_default m with Some _, None => false | _, _ => true end) &&
         gsafe f e1 out body && match eval f e1 out body with Ok e' out' => gsafe f e' out' rest | _ => true end
     end.
   Proof. cbn [gsafe]. rewrite Hs. reflexivity. Qed.
 
-  Lemma eval_call_good nm a m : lookup_frames nm (frames e1) = Some m -> m_default m = None ->
-    eval (S f) e out (NCall nm None a :: rest) =
+  Lemma eval_call_good nm o a m : lookup_frames nm (frames e1) = Some m ->
+    eval (S f) e out (NCall nm o a :: rest) =
     if Nat.eqb (length a) (m_n m) then
-      if Nat.ltb 4000 (length (subst 50 a (m_body m))) then MacroLang.OutOfFuel else
-      match eval f e1 out (subst 50 a (m_body m)) with Ok e' out' => eval f e' out' rest | other => other end
+      if Nat.ltb 4000 (length (subst 50 (call_args m o a) (m_body m))) then MacroLang.OutOfFuel else
+      match eval f e1 out (subst 50 (call_args m o a) (m_body m)) with Ok e' out' => eval f e' out' rest | other => other end
     else Stuck 2.
-  Proof. intros Hl Hd. rewrite eval_call, Hl, Hd. reflexivity. Qed.
-  Lemma eval_call_none nm a : lookup_frames nm (frames e1) = None -> eval (S f) e out (NCall nm None a :: rest) = Stuck 1.
+  Proof. intros Hl. rewrite eval_call, Hl. reflexivity. Qed.
+  Lemma eval_call_none nm o a : lookup_frames nm (frames e1) = None -> eval (S f) e out (NCall nm o a :: rest) = Stuck 1.
   Proof. intros Hl. now rewrite eval_call, Hl. Qed.
-  Lemma gsafe_call_good nm a m : lookup_frames nm (frames e1) = Some m -> m_default m = None ->
-    gsafe (S f) e out (NCall nm None a :: rest) =
-    gsafe f e1 out (subst 50 a (m_body m)) &&
-    match eval f e1 out (subst 50 a (m_body m)) with Ok e' out' => gsafe f e' out' rest | _ => true end.
-  Proof. intros Hl Hd. rewrite gsafe_call, Hl, Hd. reflexivity. Qed.
+  Lemma gsafe_call_good nm o a m : lookup_frames nm (frames e1) = Some m ->
+    gsafe (S f) e out (NCall nm o a :: rest) =
+    (match o, m_default m with Some _, None => false | _, _ => true end) &&
+    gsafe f e1 out (subst 50 (call_args m o a) (m_body m)) &&
+    match eval f e1 out (subst 50 (call_args m o a) (m_body m)) with Ok e' out' => gsafe f e' out' rest | _ => true end.
+  Proof. intros Hl. rewrite gsafe_call, Hl. reflexivity. Qed.
 End Unfold2.
 
 (* ---- executing a call ---- *)
 Lemma forallb2_Forall {A} (p : A -> bool) ll : forallb (forallb p) ll = true -> Forall (fun l => forallb p l = true) ll.
 Proof. induction ll as [|l ll IH]; intros H; [constructor|]. cbn in H. apply andb_true_iff in H as [H1 H2]. constructor; auto. Qed.
 
-Lemma exec_call2 U B nm m a r :
-  good2 m -> chain_get U B (mname nm) = Some (mean_of m) -> forallb (forallb fa_node) a = true -> length a = m_n m ->
-  exec (St (esc (mname nm) :: print_args a ++ r) U B) [] (St (print (subst 50 a (m_body m)) ++ r) U B) /\
-  forallb fa_node (subst 50 a (m_body m)) = true.
+(* what may follow a call whose optional argument is absent: not a blank, not "[" *)
+Definition safe_tok (t : tok) : Prop := is_space t = false /\ text_is 91 t = false.
+Definition safe_rest (r : list tok) : Prop := match r with [] => True | t :: _ => safe_tok t end.
+Lemma read_optional_safe r : safe_rest r -> read_optional r = (None, r).
 Proof.
-  intros (Hd & Hn9 & Hbody) Hlk Ha Hlen. pose proof (forallb2_Forall _ _ Ha) as HaF.
+  destruct r as [|t r]; intros H; [reflexivity|]. destruct H as [H1 H2].
+  unfold read_optional. cbn [read_optional_spaces]. rewrite H1. unfold read_grouping. now rewrite H2.
+Qed.
+Lemma safe_first x : w_node x = true -> exists t l, print_node x = t :: l /\ safe_tok t.
+Proof.
+  intros H. destruct x; try discriminate H.
+  - eexists _, _. split; [reflexivity|split; reflexivity].
+  - eexists _, _. split; [apply print_group|split; reflexivity].
+  - destruct default.
+    + eexists _, _. split; [apply print_newcommand|split; reflexivity].
+    + eexists _, _. split; [apply print_def|split; destruct global; reflexivity].
+  - eexists _, _. split; [apply print_let|split; reflexivity].
+  - eexists _, _. split; [apply print_call|split; reflexivity].
+  - eexists _, _. split; [apply print_param|split; reflexivity].
+  - cbn [w_node] in H. apply andb_true_iff in H as [H _]. apply andb_true_iff in H as [Ht _].
+    rewrite print_cond. destruct t as [| |a r b| | | | | |]; try discriminate Ht.
+    + eexists _, _. split; [reflexivity|split; reflexivity].
+    + eexists _, _. split; [reflexivity|split; reflexivity].
+    + destruct a as [a|]; [|discriminate Ht]. destruct b as [b|]; [|discriminate Ht].
+      eexists _, _. split; [reflexivity|split; reflexivity].
+  - cbn [w_node] in H. apply andb_true_iff in H as [H _]. apply andb_true_iff in H as [Hh _].
+    destruct (case_head_inv _ _ Hh) as (z & b0 & r & -> & -> & Hz).
+    eexists _, _. split; [apply print_case_node|split; reflexivity].
+Qed.
+Lemma safe_print ns r : forallb w_node ns = true -> safe_rest r -> safe_rest (print ns ++ r).
+Proof.
+  destruct ns as [|x ns]; intros H Hr; [exact Hr|]. cbn [forallb] in H. apply andb_true_iff in H as [Hx _].
+  destruct (safe_first x Hx) as (t & l & E & Ht). cbn [print]. rewrite E. exact Ht.
+Qed.
+
+(* words contain no brackets *)
+Definition nobr (t : tok) : Prop := text_is 91 t = false /\ text_is 93 t = false.
+Lemma bdepth_nobr l : Forall nobr l -> forall d, bdepth_after l d = Some d.
+Proof. induction 1 as [|t l [H1 H2] _ IH]; intros d; [reflexivity|]. cbn [bdepth_after]. rewrite H1, H2. apply IH. Qed.
+Lemma pcode_chars p : Forall (fun c => c = 97 \/ c = 98) (pcode p).
+Proof. induction p; cbn [pcode]; constructor; auto. Qed.
+Lemma nobr_wprint w : Forall nobr (wprint w).
+Proof.
+  unfold wprint. constructor; [split; reflexivity|]. apply Forall_app. split; [|constructor; [split; reflexivity|constructor]].
+  assert (H : Forall (fun c => c = 112 \/ c = 110 \/ c = 97 \/ c = 98) (zcode w)).
+  { destruct w; cbn [zcode]; [constructor| |]; (constructor; [auto|]); (eapply Forall_impl; [|apply pcode_chars]); intros c [->| ->]; auto. }
+  induction H as [|c l Hc _ IH]; [constructor|]. cbn [map]. constructor; [|exact IH].
+  destruct Hc as [->|[->|[->| ->]]]; split; reflexivity.
+Qed.
+Lemma words_brackets x : forallb is_word x = true -> bracket_balanced (print x) = true.
+Proof.
+  intros H. destruct (words_print x H) as (ws & ->). unfold bracket_balanced. rewrite bdepth_nobr; [reflexivity|].
+  clear. induction ws as [|w ws IH]; [constructor|]. cbn [flat_map]. apply Forall_app. split; [apply nobr_wprint|exact IH].
+Qed.
+
+Lemma read_n_print a : forall acc rest, Forall (fun x => depth_after (print x) O = Some O) a ->
+  read_n_arguments (length a) (print_args a ++ rest) acc = (rev acc ++ map Some (map print a), rest).
+Proof.
+  induction a as [|x a IH]; intros acc rest H; [cbn; now rewrite app_nil_r|].
+  inversion H as [|y l Hx Ha]; subst. cbn [length read_n_arguments print_args app]. rewrite <- app_assoc. cbn [app].
+  rewrite (read_argument_bg _ _ Hx), IH by exact Ha. cbn [rev map]. now rewrite <- app_assoc.
+Qed.
+
+(* ---- executing a call (with or without optional argument) ---- *)
+
+Lemma exec_call2 U B nm m o a r :
+  good2 m -> chain_get U B (mname nm) = Some (mean_of m) -> opt_ok o = true -> forallb (forallb fa_node) a = true ->
+  length a = m_n m -> (match o, m_default m with Some _, None => false | _, _ => true end) = true -> safe_rest r ->
+  exec (St (esc (mname nm) :: opt_toks o ++ print_args a ++ r) U B) [] (St (print (subst 50 (call_args m o a) (m_body m)) ++ r) U B) /\
+  forallb fa_node (subst 50 (call_args m o a) (m_body m)) = true.
+Proof.
+  intros Hm Hlk Ho Ha Hlen Hom Hr. pose proof (forallb2_Forall _ _ Ha) as HaF.
   assert (Hdep : Forall (fun x => depth_after (print x) O = Some O) a).
   { eapply Forall_impl; [|exact HaF]. intros x Hx. apply depth_Wl. now apply fa_Wl. }
-  destruct (m_n m) as [|k] eqn:En.
-  - (* no parameters: the definition is returned as it is *)
-    destruct a; [|discriminate Hlen]. cbn [print_args app].
-    assert (HA : forallb fa_node (m_body m) = true) by (destruct Hbody as [H|[_ H]]; [now apply (fb0_fal BODY_DEPTH)|exact H]).
-    rewrite (subst_A 50 [] _ HA). split; [|exact HA].
-    eapply (ex_cont O); [|apply ex_refl].
-    rewrite (step_macro _ _ _ (mname nm) (mean_of m)); [|reflexivity|reflexivity|exact Hlk].
-    unfold mean_of. rewrite En. reflexivity.
-  - destruct Hbody as [Hb|[H0 _]]; [|discriminate H0].
-    destruct (subst_print a (S k) HaF ltac:(lia) BODY_DEPTH (m_body m) Hb) as [Hx HA].
+  unfold good2 in Hm. unfold mean_of in Hlk. unfold call_args. destruct (m_default m) as [dflt|] eqn:Ed.
+  - (* a \newcommand with optional argument *)
+    destruct Hm as (Hn9 & Hdw & Hb).
+    set (oa := match o with Some x => x | None => dflt end).
+    assert (Hoa : forallb fa_node oa = true) by (subst oa; destruct o as [x|]; apply words_fa; [exact Ho|exact Hdw]).
+    destruct (subst_print (oa :: a) (S (m_n m)) (Forall_cons _ Hoa HaF) Hn9 BODY_DEPTH (m_body m) Hb) as [Hx HA].
     split; [|exact HA].
     eapply (ex_cont O); [|apply ex_refl].
-    rewrite (step_macro _ _ _ (mname nm) (mean_of m)); [|reflexivity|reflexivity|exact Hlk].
-    unfold mean_of. rewrite En. cbn [invoke input].
-    rewrite (definition_invoke_params (S k) (print (m_body m)) a r ltac:(lia) Hlen Hdep), Hx. reflexivity.
+    rewrite (step_macro _ _ (esc (mname nm)) (mname nm) _ _ _ _ eq_refl eq_refl Hlk). cbn [invoke input].
+    assert (Hopt : read_optional (opt_toks o ++ print_args a ++ r)
+                   = (match o with Some x => Some (print x) | None => None end, print_args a ++ r)).
+    { destruct o as [x|]; cbn [opt_toks opt_ok] in *.
+      - cbn [app]. rewrite <- app_assoc. cbn [app]. apply (read_optional_present (print x)). now apply words_brackets.
+      - cbn [app]. destruct a as [|a0 a']; [cbn [print_args app]; now apply read_optional_safe|reflexivity]. }
+    unfold newcommand_invoke. rewrite Hopt. cbn [Nat.pred]. rewrite <- Hlen, (read_n_print a [] r Hdep). cbn [rev app].
+    replace (Some match (match o with Some x => Some (print x) | None => None end) with Some x => x | None => print dflt end
+             :: map Some (map print a)) with (map Some (map print (oa :: a))) by (subst oa; destruct o; reflexivity).
+    rewrite Hx. reflexivity.
+  - destruct o as [x|]; [discriminate Hom|]. cbn [opt_toks app]. destruct Hm as (Hn9 & Hbody).
+    destruct (m_n m) as [|k] eqn:En.
+    + (* no parameters: the definition is returned as it is *)
+      destruct a; [|discriminate Hlen]. cbn [print_args app].
+      assert (HA : forallb fa_node (m_body m) = true) by (destruct Hbody as [H|[_ H]]; [now apply (fb0_fal BODY_DEPTH)|exact H]).
+      rewrite (subst_A 50 [] _ HA). split; [|exact HA].
+      eapply (ex_cont O); [|apply ex_refl].
+      rewrite (step_macro _ _ (esc (mname nm)) (mname nm) _ _ _ _ eq_refl eq_refl Hlk). reflexivity.
+    + destruct Hbody as [Hb|[H0 _]]; [|discriminate H0].
+      destruct (subst_print a (S k) HaF ltac:(lia) BODY_DEPTH (m_body m) Hb) as [Hx HA].
+      split; [|exact HA].
+      eapply (ex_cont O); [|apply ex_refl].
+      rewrite (step_macro _ _ (esc (mname nm)) (mname nm) _ _ _ _ eq_refl eq_refl Hlk). cbn [invoke input].
+      rewrite (definition_invoke_params (S k) (print (m_body m)) a r ltac:(lia) Hlen Hdep), Hx. reflexivity.
+Qed.
+
+(* ---- \newcommand{\zq..}[n+1][default]{body} ---- *)
+Lemma drop_relax_tok r : drop_relax (esc s_relax :: r) = r.
+Proof. reflexivity. Qed.
+
+Lemma exec_newcommand G fs U B nm np d body r : Rfg G fs U B -> (S np <= 9)%nat ->
+  forallb is_word d = true -> depth_after body O = Some O ->
+  (forall p, chain_get U B (mname nm) <> Some (MPrim p)) ->
+  exec (St (esc s_newcommand :: bg :: esc (mname nm) :: eg :: lbr :: map other (digits (N.of_nat (S np))) ++ rbr :: lbr :: print d ++ rbr ::
+            bg :: body ++ eg :: r) U B)
+       [prim_elem (PNewcommand false)]
+       (St r U ((mname nm, MNew (S np) (Some (print d)) body) :: B)).
+Proof.
+  intros HR Hnp Hd Hb Hnoprim.
+  set (la := length (digits (N.of_nat (S np)))).
+  eapply (ex_cont (S (S la))).
+  2: { eapply (ex_yield O); [apply step_elem; reflexivity|apply ex_refl]. }
+  rewrite (step_macro _ _ _ s_newcommand (MPrim (PNewcommand false))); [|reflexivity|reflexivity|apply (prim_lookupg G fs); [exact HR|not_mname|reflexivity]].
+  cbn [invoke]. unfold newcommand_def, ros. cbn [input read_optional_spaces]. change (is_space bg) with false. cbn iota.
+  unfold set_input. cbn [input ups bottom]. change (is_elem bg) with false. cbn iota.
+  change (seqb (ttext bg) [42]) with false. cbn iota. cbn [input read_optional_spaces]. change (is_space bg) with false. cbn iota.
+  unfold read_token. change (is_bgroup bg) with true. cbn iota. cbn [read_group].
+  change (is_bgroup (esc (mname nm))) with false. change (is_egroup (esc (mname nm))) with false. cbn iota.
+  change (is_bgroup eg) with false. change (is_egroup eg) with true. cbn iota. cbn [rev app existsb filter].
+  change (is_elem (esc (mname nm))) with false. change (tcat (esc (mname nm)) =? CC_ESCAPE) with true. cbn iota. cbn [orb].
+  assert (Hbb : bracket_balanced (map other (digits (N.of_nat (S np)))) = true).
+  { unfold bracket_balanced. rewrite bdepth_nobr; [reflexivity|]. pose proof (digits_isdig (N.of_nat (S np))) as Hdg.
+    induction Hdg as [|c l Hc _ IH]; [constructor|]. cbn [map]. constructor; [|exact IH].
+    unfold isdig in Hc. unfold nobr, text_is, other. cbn [tcat ttext]. split; cbn; lia. }
+  rewrite (read_optional_present _ _ Hbb).
+  assert (Hpl : forallb plainchar (map other (digits (N.of_nat (S np)))) = true).
+  { clear. induction (digits (N.of_nat (S np))) as [|c l IH]; [reflexivity|]. cbn [map forallb]. now rewrite IH. }
+  rewrite Hpl.
+  rewrite (read_integer_digits la (N.of_nat (S np)) (esc s_relax)); [|apply stopper_relax, (prim_lookupg G fs); [exact HR|not_mname|reflexivity]|subst la; lia].
+  cbn [bind input]. rewrite drop_relax_tok.
+  rewrite (read_optional_present _ _ (words_brackets d Hd)).
+  cbn [read_optional_spaces]. change (is_space bg) with false. cbn iota. change (is_bgroup bg) with true. cbn iota.
+  rewrite (read_group_app body O [] (eg :: r) O Hb). cbn [read_group]. change (is_bgroup eg) with false. change (is_egroup eg) with true. cbn iota.
+  rewrite app_nil_r, rev_involutive. cbn [ttext esc]. unfold lookup. cbn [ups bottom].
+  rewrite nat_N_Z, Nat2Z.id.
+  destruct (chain_get U B (mname nm)) as [[a' b'|n' o' b'|p|k]|] eqn:El; try reflexivity.
+  exfalso. now apply (Hnoprim p).
 Qed.
 
 (* ---- \ifcase ---- *)
@@ -1805,6 +2042,18 @@ Section Unfold3.
   Lemma eval_case z bs el : eval (S f) e out (NCase (OLit z) bs el :: rest) =
     match eval f e1 out (case_branch z bs el) with Ok e' out' => eval f e' out' rest | other => other end.
   Proof. cbn [eval]. now rewrite Hs. Qed.
+  Lemma eval_let nm tg : eval (S f) e out (NLet nm tg :: rest) =
+    match lookup_frames tg (frames e1) with
+    | Some m => eval f (with_frames e1 (def_local nm m (frames e1))) out rest
+    | None => Stuck 1
+    end.
+  Proof. cbn [eval]. rewrite Hs. reflexivity. Qed.
+  Lemma gsafe_let nm tg : gsafe (S f) e out (NLet nm tg :: rest) =
+    match lookup_frames tg (frames e1) with
+    | Some m => gsafe f (with_frames e1 (def_local nm m (frames e1))) out rest
+    | None => true
+    end.
+  Proof. cbn [gsafe]. rewrite Hs. reflexivity. Qed.
   Lemma gsafe_case z bs el : gsafe (S f) e out (NCase (OLit z) bs el :: rest) =
     gsafe f e1 out (case_branch z bs el) &&
     match eval f e1 out (case_branch z bs el) with Ok e' out' => gsafe f e' out' rest | _ => true end.
@@ -1873,35 +2122,56 @@ Qed.
 Lemma exec_case G fs U B z b0 r el tl : Rfg G fs U B -> (0 <= z)%Z ->
   (forall k, walks (print b0) k k) -> Forall (fun b => forall k, walks (print b) k k) r ->
   (forall e, el = Some e -> forall k, walks (print e) k k) ->
-  exists X, Forall (fun x => is_elem x = true) X /\
+  exists Xt Xe, Forall (fun x => is_elem x = true) Xe /\ (forall r', exec (St (Xt ++ r') U B) Xe (St r' U B)) /\
   exec (St (print_node (NCase (OLit z) (b0 :: r) el) ++ tl) U B) []
-       (St (X ++ print (case_branch z (b0 :: r) el) ++ tl) U B).
+       (St (Xt ++ print (case_branch z (b0 :: r) el) ++ tl) U B).
 Proof.
-  intros HR Hz Hb0 Hr Hel. exists (if (z =? 0)%Z then [prim_elem PRelax] else []).
+  intros HR Hz Hb0 Hr Hel. exists (if (z =? 0)%Z then [esc s_relax] else []), (if (z =? 0)%Z then [prim_elem PRelax] else []).
   split; [destruct (z =? 0)%Z; [constructor; [reflexivity|constructor]|constructor]|].
+  split; [intros r'; destruct (z =? 0)%Z; [apply (exec_relax G fs), HR|apply ex_refl]|].
   set (la := length (digits (Z.to_N z))).
   eapply (ex_cont (S (S la))); [|apply ex_refl].
   rewrite print_case_node. cbn [app]. rewrite <- app_assoc. cbn [app].
   rewrite (step_macro _ _ _ s_ifcase (MPrim PIfcase)); [|reflexivity|reflexivity|apply (prim_lookupg G fs); [exact HR|not_mname|reflexivity]].
   cbn [invoke].
-  rewrite (read_integer_digits la (Z.to_N z) (esc s_relax) (prim_elem PRelax)); [| |left; reflexivity|subst la; lia].
-  2: { apply nx_relax. apply (prim_lookupg G fs); [exact HR|not_mname|reflexivity]. }
+  rewrite (read_integer_digits la (Z.to_N z) (esc s_relax)); [|apply stopper_relax, (prim_lookupg G fs); [exact HR|not_mname|reflexivity]|subst la; lia].
   cbn [bind input]. rewrite Z2N.id by exact Hz.
   repeat (rewrite <- app_assoc; cbn [app]).
-  change (prim_elem PRelax :: print b0 ++ ?l) with ([prim_elem PRelax] ++ print b0 ++ l).
-  rewrite (tprocess_case [prim_elem PRelax] b0 r el tl z); [|constructor; [reflexivity|constructor]|exact Hb0|exact Hr|exact Hel|exact Hz].
+  change (esc s_relax :: print b0 ++ ?l) with ([esc s_relax] ++ print b0 ++ l).
+  rewrite (tprocess_case [esc s_relax] b0 r el tl z); [|constructor; [reflexivity|constructor]|exact Hb0|exact Hr|exact Hel|exact Hz].
   unfold set_input. cbn [ups bottom]. rewrite <- app_assoc. reflexivity.
+Qed.
+
+(* ---- \let\new=\old ---- *)
+Lemma exec_let G fs U B nm tg m r : Rfg G fs U B -> chain_get U B (mname tg) = Some m ->
+  exec (St (esc s_let :: esc (mname nm) :: other 61 :: esc (mname tg) :: r) U B) [prim_elem PLet]
+       (add_local (mname nm) m (St r U B)).
+Proof.
+  intros HR Hl. eapply (ex_cont O).
+  - rewrite (step_macro _ _ (esc s_let) s_let (MPrim PLet)); [|reflexivity|reflexivity|apply (prim_lookupg G fs); [exact HR|not_mname|reflexivity]].
+    cbn [invoke]. unfold let_invoke, ros, set_input, getitem, lookup. cbn [input ups bottom read_optional_spaces].
+    change (is_space (esc (mname nm))) with false. cbn iota. cbn [input ups bottom read_optional_spaces].
+    change (is_space (other 61)) with false. cbn iota. cbn [input]. change (is_elem (other 61)) with false. cbn iota.
+    change (seqb (ttext (other 61)) [61]) with true. cbn iota. cbn [input ups bottom read_optional_spaces].
+    change (is_space (esc (mname tg))) with false. cbn iota. cbn [input ups bottom].
+    change (is_elem (esc (mname tg)) || (tcat (esc (mname tg)) =? CC_ESCAPE)) with true. cbn iota.
+    change (def_name (esc (mname tg))) with (mname tg). change (def_name (esc (mname nm))) with (mname nm).
+    rewrite Hl. reflexivity.
+  - destruct (add_local (mname nm) m (St r U B)) as [i U' B'] eqn:E.
+    assert (Hi : i = r) by (unfold add_local, add_global, set_bottom, set_ups in E; cbn in E; destruct U; inversion E; reflexivity).
+    subst i. unfold push_tok, set_input. cbn [input ups bottom].
+    eapply (ex_yield O); [apply step_elem; reflexivity|apply ex_refl].
 Qed.
 
 (* ---- the simulation on F2 ---- *)
 Lemma sim2 f : forall e out ns e' out',
   forallb f2_node ns = true -> eval f e out ns = Ok e' out' -> gsafe f e out ns = true ->
-  forall U B rest, Rfg good2 (frames e) U B ->
+  forall U B rest, Rfg good2 (frames e) U B -> safe_rest rest ->
   exists T U' B',
     exec (St (print ns ++ rest) U B) T (St rest U' B') /\ Rfg good2 (frames e') U' B' /\ length U' = length U /\
     words_text (rev out') = words_text (rev out) ++ text_of T.
 Proof.
-  induction f as [|f IH]; intros e out ns e' out' HF Hev Hgs U B rest HR; [discriminate Hev|].
+  induction f as [|f IH]; intros e out ns e' out' HF Hev Hgs U B rest HR Hsafe; [discriminate Hev|].
   destruct ns as [|n ns].
   { rewrite eval_nil in Hev. injection Hev as <- <-. exists [], U, B. repeat split; [apply ex_refl|exact HR|now rewrite app_nil_r]. }
   cbn [forallb] in HF. apply andb_true_iff in HF as [Hn Hns].
@@ -1911,7 +2181,7 @@ Proof.
   destruct n; try discriminate Hn.
   - (* word *)
     rewrite (eval_word f e out ns budget Hs) in Hev. rewrite (gsafe_word f e out ns budget Hs) in Hgs.
-    destruct (IH _ _ _ _ _ Hns Hev Hgs U B rest HR1) as (T & U' & B' & Hex & HR' & Hlen & Htxt).
+    destruct (IH _ _ _ _ _ Hns Hev Hgs U B rest HR1 Hsafe) as (T & U' & B' & Hex & HR' & Hlen & Htxt).
     exists (wprint w ++ T), U', B'. repeat split; [|exact HR'|exact Hlen|].
     + eapply exec_trans; [apply exec_plain, plain_wprint|exact Hex].
     + rewrite Htxt, words_text_snoc, text_of_app, (text_of_plain _ (plain_wprint w)). now rewrite app_assoc.
@@ -1921,24 +2191,41 @@ Proof.
     apply andb_true_iff in Hgs as [Hg1 Hg2].
     destruct (eval f (with_frames (tick e budget) ([] :: frames (tick e budget))) out body) as [e2 out2| |] eqn:Eb; try discriminate Hev.
     rewrite print_group. cbn [app]. rewrite <- app_assoc. cbn [app].
-    destruct (IH _ _ _ _ _ Hn Eb Hg1 ([] :: U) B (eg :: print ns ++ rest) (Rfg_push good2 _ _ _ HR1))
+    destruct (IH _ _ _ _ _ Hn Eb Hg1 ([] :: U) B (eg :: print ns ++ rest) (Rfg_push good2 _ _ _ HR1) (conj eq_refl eq_refl))
       as (T1 & U1 & B1 & Hex1 & HR1' & Hlen1 & Htxt1).
     destruct U1 as [|u1 U1]; [discriminate Hlen1|].
     assert (HR2 : Rfg good2 (frames (with_frames e2 (tl (frames e2)))) U1 B1) by (apply (Rfg_pop good2 _ u1); exact HR1').
-    destruct (IH _ _ _ _ _ Hns Hev Hg2 U1 B1 rest HR2) as (T2 & U2 & B2 & Hex2 & HR2' & Hlen2 & Htxt2).
+    destruct (IH _ _ _ _ _ Hns Hev Hg2 U1 B1 rest HR2 Hsafe) as (T2 & U2 & B2 & Hex2 & HR2' & Hlen2 & Htxt2).
     exists ([prim_elem PBgroup] ++ T1 ++ [prim_elem PEgroup] ++ T2), U2, B2. repeat split; [|exact HR2'|cbn in Hlen1; lia|].
     + eapply exec_trans; [apply (exec_bgroup good2 _ _ _ _ HR1)|].
       eapply exec_trans; [exact Hex1|].
       eapply exec_trans; [apply (exec_egroup good2 _ _ _ _ _ HR1')|exact Hex2].
     + rewrite Htxt2, Htxt1, !text_of_app. cbn [text_of filter prim_elem is_elem]. cbn. now rewrite <- !app_assoc.
   - (* definition *)
-    cbn [f2_node] in Hn. apply andb_true_iff in Hn as [Hn Hbody]. apply andb_true_iff in Hn as [Hnp Hdflt].
-    destruct default; [discriminate Hdflt|]. apply Nat.leb_le in Hnp.
+    cbn [f2_node] in Hn.
     rewrite (eval_def f e out ns budget Hs) in Hev. rewrite (gsafe_def f e out ns budget Hs) in Hgs.
     apply andb_true_iff in Hgs as [Hun Hg2].
-    set (m := {| m_n := nparams; m_default := None; m_body := body |}) in *.
+    set (m := {| m_n := nparams; m_default := default; m_body := body |}) in *.
+    destruct default as [dd|].
+    { (* \newcommand{\name}[n+1][dd]{body}: global *)
+      apply andb_true_iff in Hn as [Hn Hbody]. apply andb_true_iff in Hn as [Hn Hdw]. apply andb_true_iff in Hn as [Hgl Hnp].
+      subst global. apply Nat.leb_le in Hnp.
+      assert (Hm : good2 m) by (unfold good2; cbn [m_default m m_n m_body]; repeat split; assumption).
+      rewrite print_newcommand. cbn [app]. repeat (rewrite <- app_assoc; cbn [app]).
+      assert (Hnoprim : forall p, chain_get U B (mname name) <> Some (MPrim p)).
+      { intros p. rewrite (Rfg_lookup good2 _ _ _ name HR1). destruct (lookup_frames name (frames (tick e budget))) as [m0|]; [|discriminate].
+        cbn [option_map]. unfold mean_of. destruct (m_default m0); discriminate. }
+      pose proof (exec_newcommand good2 _ U B name nparams dd (print body) (print ns ++ rest) HR1 Hnp Hdw
+                    (depth_Wl _ (good2_body_W m Hm) O) Hnoprim) as Hex0.
+      change (MNew (S nparams) (Some (print dd)) (print body)) with (mean_of m) in Hex0.
+      pose proof (Rfg_def_global good2 _ U B name m Hm Hun HR1) as HR0.
+      destruct (IH _ _ _ _ _ Hns Hev Hg2 U _ rest HR0 Hsafe) as (T & U' & B' & Hex & HR' & Hlen & Htxt).
+      exists ([prim_elem (PNewcommand false)] ++ T), U', B'. repeat split; [|exact HR'|exact Hlen|].
+      + eapply exec_trans; [exact Hex0|exact Hex].
+      + rewrite Htxt, text_of_app. reflexivity. }
+    apply andb_true_iff in Hn as [Hnp Hbody]. apply Nat.leb_le in Hnp.
     assert (Hm : good2 m).
-    { split; [reflexivity|]. split; [exact Hnp|]. apply orb_true_iff in Hbody as [Hb|Hb]; [now left|].
+    { unfold good2. cbn [m_default m m_n m_body]. split; [exact Hnp|]. apply orb_true_iff in Hbody as [Hb|Hb]; [now left|].
       apply andb_true_iff in Hb as [H0 Hb]. apply Nat.eqb_eq in H0. right. now split. }
     rewrite print_def. cbn [app]. repeat (rewrite <- app_assoc; cbn [app]).
     pose proof (exec_def good2 _ U B global name nparams (print body) (print ns ++ rest) HR1
@@ -1955,26 +2242,44 @@ Proof.
         + eexists [], _. split; [reflexivity|]. split; [reflexivity|exact Hl].
         + eexists (_ :: U), B. split; [reflexivity|]. split; [reflexivity|exact Hl]. }
     destruct Hst as (U0 & B0 & Est & Hlen0 & HR0). rewrite Est in Hex0.
-    destruct (IH _ _ _ _ _ Hns Hev Hg2 U0 B0 rest HR0) as (T & U' & B' & Hex & HR' & Hlen & Htxt).
+    destruct (IH _ _ _ _ _ Hns Hev Hg2 U0 B0 rest HR0 Hsafe) as (T & U' & B' & Hex & HR' & Hlen & Htxt).
     exists ([prim_elem (PDef global)] ++ T), U', B'. repeat split; [|exact HR'|lia|].
     + eapply exec_trans; [exact Hex0|exact Hex].
     + rewrite Htxt, text_of_app. replace (text_of [prim_elem (PDef global)]) with (@nil tok) by (destruct global; reflexivity). reflexivity.
+  - (* let *)
+    rewrite (eval_let f e out ns budget Hs) in Hev. rewrite (gsafe_let f e out ns budget Hs) in Hgs.
+    destruct (lookup_frames target (frames (tick e budget))) as [m|] eqn:El; [|discriminate Hev].
+    pose proof (Rfg_good good2 _ _ _ _ _ HR1 El) as Hm.
+    assert (Hlk : chain_get U B (mname target) = Some (mean_of m)) by (rewrite (Rfg_lookup good2 _ _ _ target HR1), El; reflexivity).
+    rewrite print_let. cbn [app].
+    pose proof (exec_let good2 _ U B name target (mean_of m) (print ns ++ rest) HR1 Hlk) as Hex0.
+    pose proof (Rfg_def_local good2 _ U B name m Hm HR1) as HR0. cbv zeta in HR0.
+    set (st := add_local (mname name) (mean_of m) (St (print ns ++ rest) U B)) in *.
+    assert (Hst : st = St (print ns ++ rest) (ups (add_local (mname name) (mean_of m) (St [] U B))) (bottom (add_local (mname name) (mean_of m) (St [] U B)))
+                  /\ length (ups (add_local (mname name) (mean_of m) (St [] U B))) = length U).
+    { subst st. unfold add_local, add_global, set_ups, set_bottom. cbn [ups bottom input]. destruct U; split; reflexivity. }
+    destruct Hst as [Est Hlen0]. rewrite Est in Hex0.
+    destruct (IH _ _ _ _ _ Hns Hev Hgs _ _ rest HR0 Hsafe) as (T & U' & B' & Hex & HR' & Hlen & Htxt).
+    exists ([prim_elem PLet] ++ T), U', B'. repeat split; [|exact HR'|lia|].
+    + eapply exec_trans; [exact Hex0|exact Hex].
+    + rewrite Htxt, text_of_app. reflexivity.
   - (* call *)
-    cbn [f2_node] in Hn. apply andb_true_iff in Hn as [Ho Ha]. destruct opt; [discriminate Ho|].
+    cbn [f2_node] in Hn. apply andb_true_iff in Hn as [Ho Ha].
     destruct (lookup_frames name (frames (tick e budget))) as [m|] eqn:El;
-      [|rewrite (eval_call_none f e out ns budget Hs name args El) in Hev; discriminate Hev].
-    pose proof (Rfg_good good2 _ _ _ _ _ HR1 El) as Hm. pose proof Hm as (Hmd & _ & _).
-    rewrite (eval_call_good f e out ns budget Hs name args m El Hmd) in Hev.
-    rewrite (gsafe_call_good f e out ns budget Hs name args m El Hmd) in Hgs.
+      [|rewrite (eval_call_none f e out ns budget Hs name opt args El) in Hev; discriminate Hev].
+    pose proof (Rfg_good good2 _ _ _ _ _ HR1 El) as Hm.
+    rewrite (eval_call_good f e out ns budget Hs name opt args m El) in Hev.
+    rewrite (gsafe_call_good f e out ns budget Hs name opt args m El) in Hgs.
     destruct (Nat.eqb (length args) (m_n m)) eqn:Elen; [|discriminate Hev]. apply Nat.eqb_eq in Elen.
-    destruct (Nat.ltb 4000 (length (subst 50 args (m_body m)))); [discriminate Hev|].
-    apply andb_true_iff in Hgs as [Hg1 Hg2].
-    destruct (eval f (tick e budget) out (subst 50 args (m_body m))) as [e2 out2| |] eqn:Eb; try discriminate Hev.
-    rewrite print_call. cbn [app].
+    destruct (Nat.ltb 4000 (length (subst 50 (call_args m opt args) (m_body m)))); [discriminate Hev|].
+    apply andb_true_iff in Hgs as [Hg1 Hg2]. apply andb_true_iff in Hg1 as [Hom Hg1].
+    destruct (eval f (tick e budget) out (subst 50 (call_args m opt args) (m_body m))) as [e2 out2| |] eqn:Eb; try discriminate Hev.
+    rewrite print_call. cbn [app]. rewrite <- app_assoc.
     assert (Hlk : chain_get U B (mname name) = Some (mean_of m)) by (rewrite (Rfg_lookup good2 _ _ _ name HR1), El; reflexivity).
-    destruct (exec_call2 U B name m args (print ns ++ rest) Hm Hlk Ha Elen) as [Hex0 HA].
-    destruct (IH _ _ _ _ _ (fa_f2l _ HA) Eb Hg1 U B (print ns ++ rest) HR1) as (T1 & U1 & B1 & Hex1 & HR1' & Hlen1 & Htxt1).
-    destruct (IH _ _ _ _ _ Hns Hev Hg2 U1 B1 rest HR1') as (T2 & U2 & B2 & Hex2 & HR2' & Hlen2 & Htxt2).
+    assert (Hsafe' : safe_rest (print ns ++ rest)) by (apply safe_print; [now apply f2_Wl|exact Hsafe]).
+    destruct (exec_call2 U B name m opt args (print ns ++ rest) Hm Hlk Ho Ha Elen Hom Hsafe') as [Hex0 HA].
+    destruct (IH _ _ _ _ _ (fa_f2l _ HA) Eb Hg1 U B (print ns ++ rest) HR1 Hsafe') as (T1 & U1 & B1 & Hex1 & HR1' & Hlen1 & Htxt1).
+    destruct (IH _ _ _ _ _ Hns Hev Hg2 U1 B1 rest HR1' Hsafe) as (T2 & U2 & B2 & Hex2 & HR2' & Hlen2 & Htxt2).
     exists (T1 ++ T2), U2, B2. repeat split; [|exact HR2'|lia|].
     + eapply (exec_trans _ []); [exact Hex0|]. eapply exec_trans; [exact Hex1|exact Hex2].
     + rewrite Htxt2, Htxt1, text_of_app. now rewrite app_assoc.
@@ -1987,15 +2292,13 @@ Proof.
     rewrite print_cond. rewrite <- !app_assoc. cbn [app].
     assert (Hel' : forall e0, els = Some e0 -> forallb f2_node e0 = true) by (intros e0 ->; exact Hel).
     destruct (exec_cond good2 _ U B t thn els (print ns ++ rest) HR1 Ht (walks_Wl _ (f2_Wl _ Hth))
-               (fun e0 He0 => walks_Wl _ (f2_Wl _ (Hel' e0 He0))) (tick e budget) eq_refl) as (X & HX & Hex0).
+               (fun e0 He0 => walks_Wl _ (f2_Wl _ (Hel' e0 He0))) (tick e budget) eq_refl) as (Xt & X & HX & HXe & Hex0).
     assert (Hbr : forallb f2_node br = true) by (subst br; destruct (eval_test (tick e budget) t); [exact Hth|destruct els as [x|]; [now apply Hel'|reflexivity]]).
-    destruct (IH _ _ _ _ _ Hbr Eb Hg1 U B (print ns ++ rest) HR1) as (T1 & U1 & B1 & Hex1 & HR1' & Hlen1 & Htxt1).
-    destruct (IH _ _ _ _ _ Hns Hev Hg2 U1 B1 rest HR1') as (T2 & U2 & B2 & Hex2 & HR2' & Hlen2 & Htxt2).
+    destruct (IH _ _ _ _ _ Hbr Eb Hg1 U B (print ns ++ rest) HR1 (safe_print _ _ (f2_Wl _ Hns) Hsafe)) as (T1 & U1 & B1 & Hex1 & HR1' & Hlen1 & Htxt1).
+    destruct (IH _ _ _ _ _ Hns Hev Hg2 U1 B1 rest HR1' Hsafe) as (T2 & U2 & B2 & Hex2 & HR2' & Hlen2 & Htxt2).
     exists ((if eval_test (tick e budget) t then X else []) ++ T1 ++ T2), U2, B2. repeat split; [|exact HR2'|lia|].
     + eapply (exec_trans _ []); [exact Hex0|]. subst br. destruct (eval_test (tick e budget) t).
-      * rewrite <- app_assoc. eapply exec_trans; [|eapply exec_trans; [exact Hex1|exact Hex2]].
-        clear -HX. induction HX as [|x X Hx _ IHX]; [apply ex_refl|]. cbn [app].
-        eapply (ex_yield O); [now apply step_elem|exact IHX].
+      * rewrite <- app_assoc. eapply exec_trans; [apply HXe|eapply exec_trans; [exact Hex1|exact Hex2]].
       * cbn [app]. replace (print (else_nodes els)) with (print match els with Some x => x | None => [] end) by (destruct els; reflexivity).
         eapply exec_trans; [exact Hex1|exact Hex2].
     + rewrite Htxt2, Htxt1, !text_of_app.
@@ -2013,17 +2316,15 @@ Proof.
     assert (Hel' : forall e0, els = Some e0 -> forallb f2_node e0 = true) by (intros e0 ->; exact Hel).
     destruct (exec_case good2 _ U B z b0 r els (print ns ++ rest) HR1 Hz (walks_Wl _ (f2_Wl _ Hb0))
                (Forall_impl _ (fun b Hb => walks_Wl b (f2_Wl b Hb)) Hr)
-               (fun e0 He0 => walks_Wl _ (f2_Wl _ (Hel' e0 He0)))) as (X & HX & Hex0).
+               (fun e0 He0 => walks_Wl _ (f2_Wl _ (Hel' e0 He0)))) as (Xt & X & HX & HXe & Hex0).
     assert (Hbr : forallb f2_node br = true).
     { subst br. unfold case_branch. destruct ((0 <=? z) && (z <? Z.of_nat (length (b0 :: r))))%Z.
       - generalize (Z.to_nat z). clear -HbsF. induction HbsF as [|b l Hb _ IHl]; intros [|k]; try reflexivity; [exact Hb|apply IHl].
       - destruct els as [x|]; [now apply Hel'|reflexivity]. }
-    destruct (IH _ _ _ _ _ Hbr Eb Hg1 U B (print ns ++ rest) HR1) as (T1 & U1 & B1 & Hex1 & HR1' & Hlen1 & Htxt1).
-    destruct (IH _ _ _ _ _ Hns Hev Hg2 U1 B1 rest HR1') as (T2 & U2 & B2 & Hex2 & HR2' & Hlen2 & Htxt2).
+    destruct (IH _ _ _ _ _ Hbr Eb Hg1 U B (print ns ++ rest) HR1 (safe_print _ _ (f2_Wl _ Hns) Hsafe)) as (T1 & U1 & B1 & Hex1 & HR1' & Hlen1 & Htxt1).
+    destruct (IH _ _ _ _ _ Hns Hev Hg2 U1 B1 rest HR1' Hsafe) as (T2 & U2 & B2 & Hex2 & HR2' & Hlen2 & Htxt2).
     exists (X ++ T1 ++ T2), U2, B2. repeat split; [|exact HR2'|lia|].
-    + eapply (exec_trans _ []); [exact Hex0|]. eapply exec_trans; [|eapply exec_trans; [exact Hex1|exact Hex2]].
-      clear -HX. induction HX as [|x X Hx _ IHX]; [apply ex_refl|]. cbn [app].
-      eapply (ex_yield O); [now apply step_elem|exact IHX].
+    + eapply (exec_trans _ []); [exact Hex0|]. eapply exec_trans; [apply HXe|eapply exec_trans; [exact Hex1|exact Hex2]].
     + rewrite Htxt2, Htxt1, !text_of_app, (text_of_elems X HX). cbn [app]. now rewrite app_assoc.
 Qed.
 
@@ -2037,7 +2338,7 @@ Theorem engine_simulates_F2 fuel p e out :
     (forall k, (forall id, k <> mname id) -> findm k (bottom st') = findm k base_frame).
 Proof.
   intros HF Hden Hsafe. unfold in_F2 in HF. unfold den in Hden. unfold gdef_safe in Hsafe.
-  destruct (sim2 fuel empty_env [] p e out HF Hden Hsafe [] base_frame [] (Rfg_init good2)) as (T & U' & B' & Hex & HR & Hlen & Htxt).
+  destruct (sim2 fuel empty_env [] p e out HF Hden Hsafe [] base_frame [] (Rfg_init good2) I) as (T & U' & B' & Hex & HR & Hlen & Htxt).
   destruct U' as [|u U']; [|discriminate Hlen]. rewrite app_nil_r in Hex.
   destruct (exec_run _ _ _ Hex eq_refl) as (fuel' & Hrun).
   exists fuel', (St [] [] B'), T. split; [exact (Hrun [])|]. split; [cbn in Htxt; now rewrite Htxt|]. split; [reflexivity|].
